@@ -48,6 +48,14 @@ CORPUS += [
     ('cond-lvalue-ptr', 'f', 'int f(int a, int *p) { *(a ? &p[0] : &p[1]) = a ? (a > 5 ? 3 : 4) : 9; return p[0] * 16 + p[1]; }', [('int', 'a'), ('int *', 'p', 2)], 'int',
      'i_p[0] > -100 && i_p[0] < 100 && i_p[1] > -100 && i_p[1] < 100'),
 ]
+# variable length arrays: the size expression is lowered (possibly into several blocks) before the allocation
+CORPUS += [
+    ('vla', 'f', 'int f(int n, int v) { int a[n]; a[0] = v; a[n - 1] += 1; return a[0] + (int)sizeof a; }', [('int', 'n'), ('int', 'v')], 'int', 'in_n >= 1 && in_n <= 6 && in_v > -100000 && in_v < 100000'),
+    ('vla-cond-size', 'f', 'int f(int n, int v) { int a[n > 0 ? n : 1]; a[0] = v; return a[0] * 2 + (int)(sizeof a / sizeof a[0]); }', [('int', 'n'), ('int', 'v')], 'int',
+     'in_n >= -3 && in_n <= 6 && in_v > -100000 && in_v < 100000'),
+    ('vla-logic-size', 'f', 'long f(int n, int m) { long a[(n && m) + 1]; a[0] = n; a[(n && m)] = m; return a[0] + (long)sizeof a; }', [('int', 'n'), ('int', 'm')], 'long', ''),
+    ('vla-after-return', 'f', 'int f(int n) { if (n > 2) return 1; { int a[n + 1]; a[n] = 5; return a[n] + (int)sizeof a; } }', [('int', 'n')], 'int', 'in_n >= 0 && in_n <= 6'),
+]
 # conversion of the returned value to the function's return type
 CORPUS += [
     ('return-uchar', 'f', 'unsigned char f(int a) { return a; }', [('int', 'a')], 'unsigned char', ''),
